@@ -6,65 +6,12 @@ import (
 	"os"
 	"strings"
 
-	"verifharness/c01"
-	"verifharness/c02"
-	"verifharness/c03"
-	"verifharness/c04"
-	"verifharness/c05"
-	"verifharness/c06"
-	"verifharness/c07"
-	"verifharness/c08"
-	"verifharness/c09"
-	"verifharness/c10"
-	"verifharness/c11"
-	"verifharness/c12"
-	"verifharness/c13"
-	"verifharness/c16"
-	"verifharness/c17"
-	"verifharness/c18"
 	"verifharness/nd"
 )
 
 type entry struct {
 	setup func()
 	run   func()
-}
-
-var registry = map[string]entry{
-	"c08.RunPrecedence":       {c08.Setup, c08.RunPrecedence},
-	"c13.RunPurity":           {c13.Setup, c13.RunPurity},
-	"c13.RunFootprint":        {c13.Setup, c13.RunFootprint},
-	"c13.RunBuildDeterminism": {c13.Setup, c13.RunBuildDeterminism},
-	"c12.RunNames":            {c12.Setup, c12.RunNames},
-	"c12.RunLang":             {c12.Setup, c12.RunLang},
-	"c11.RunNameTests":        {c11.Setup, c11.RunNameTests},
-	"c11.RunVariables":        {c11.Setup, c11.RunVariables},
-	"c11.RunFunctions":        {c11.Setup, c11.RunFunctions},
-	"c17.RunHTML":             {c17.Setup, c17.RunHTML},
-	"c09.RunXML":              {c09.Setup, c09.RunXML},
-	"c16.RunJSON":             {c16.Setup, c16.RunJSON},
-	"c10.RunContract":         {c10.Setup, c10.RunContract},
-	"c10.RunStack":            {c10.Setup, c10.RunStack},
-	"c07.RunSearch":           {c07.Setup, c07.RunSearch},
-	"c07.RunSubstring":        {c07.Setup, c07.RunSubstring},
-	"c07.RunLengthSpace":      {c07.Setup, c07.RunLengthSpace},
-	"c07.RunTranslate":        {c07.Setup, c07.RunTranslate},
-	"c05.RunCompare":          {c05.Setup, c05.RunCompare},
-	"c18.RunFromNode":         {c18.Setup, c18.RunFromNode},
-	"c18.RunCompose":          {c18.Setup, c18.RunCompose},
-	"c18.RunFnStep":           {c18.Setup, c18.RunFnStep},
-	"c03.RunOrder":            {c03.Setup, c03.RunOrder},
-	"c03.RunUnion":            {c03.Setup, c03.RunUnion},
-	"c02.RunPredicates":       {c02.Setup, c02.RunPredicates},
-	"c01.RunSteps":            {c01.Setup, c01.RunSteps},
-	"c04.RunNumber":           {c04.Setup, c04.RunNumber},
-	"c04.RunString":           {c04.Setup, c04.RunString},
-	"c04.RunBool":             {c04.Setup, c04.RunBool},
-	"c06.RunArith":            {c06.Setup, c06.RunArith},
-	"c06.RunMod":              {c06.Setup, c06.RunMod},
-	"c06.RunRounding":         {c06.Setup, c06.RunRounding},
-	"c06.RunSum":              {c06.Setup, c06.RunSum},
-	"c06.RunVacuity":          {c06.Setup, c06.RunVacuity},
 }
 
 func main() {
